@@ -69,7 +69,7 @@ func RunLight(c *Ctx) {
 				store := []*types.SignedHeader{s.headerOf(s.ih)} // trusted genesis header
 				c.Tr.Emit("LightInit", world.F{"node": "light", "h": int(s.ih)})
 				for h := s.ih + 1; h <= s.top; h++ {
-					classes := []string{"A1same", "A1alt", "A1time", "A3", "A3g", "A4", "A5", "A5own", "A6"}
+					classes := []string{"A1same", "A1alt", "A1time", "A3", "A3g", "A4", "A4ns", "A5", "A5own", "A6"}
 					rng.Shuffle(len(classes), func(i, j int) { classes[i], classes[j] = classes[j], classes[i] })
 					offerAdv := func() {
 						for _, cl := range classes {
